@@ -54,6 +54,7 @@ func rulesC04(r *Run) {
 	// ---- R2
 	r.Kind("R2", "K3")
 	ruleWaiter(r, "R2")
+	ruleWaiterRelease(r, "R2")
 	r.Expect("R2", 3)
 
 	// ---- R3
